@@ -10,9 +10,11 @@ from . import cfg as cfgmod
 
 
 class Term(object):
-    __slots__ = ('key', 'deps', 'volatile', 'const', 'base', 'off', 'node')
+    __slots__ = ('key', 'deps', 'volatile', 'const', 'base', 'off', 'node', 'shape', 'sub')
 
-    def __init__(self, key, deps=frozenset(), volatile=False, const=None, base=None, off=0, node=None):
+    def __init__(self, key, deps=frozenset(), volatile=False, const=None, base=None, off=0, node=None, shape=None, sub=()):
+        self.shape = shape
+        self.sub = tuple(sub)
         self.key = key
         self.deps = frozenset(deps)
         self.volatile = volatile
@@ -65,7 +67,7 @@ class TermBuilder(object):
                     return Term('self.' + a, {'A:' + a}, volatile=True, node=e)
                 return Term('self.' + a, {'A:' + a}, node=e)
             b = self.term(e.value)
-            return Term(b.key + '.' + e.attr, b.deps, b.volatile, node=e)
+            return Term(b.key + '.' + e.attr, b.deps, b.volatile, node=e, shape='%s.' + e.attr, sub=(b,))
         if isinstance(e, ast.Subscript):
             b = self.term(e.value)
             s = e.slice
@@ -77,9 +79,11 @@ class TermBuilder(object):
                     if p is not None:
                         deps |= p.deps
                         vol = vol or p.volatile
-                return Term('%s[%s]' % (b.key, ':'.join('' if p is None else p.key for p in parts)), deps, vol, node=e)
+                shape = '%s[' + ':'.join('' if p is None else '%s' for p in parts) + ']'
+                return Term('%s[%s]' % (b.key, ':'.join('' if p is None else p.key for p in parts)), deps, vol, node=e,
+                            shape=shape, sub=[b] + [p for p in parts if p is not None])
             i = self.term(s)
-            return Term('%s[%s]' % (b.key, i.key), b.deps | i.deps, b.volatile or i.volatile, node=e)
+            return Term('%s[%s]' % (b.key, i.key), b.deps | i.deps, b.volatile or i.volatile, node=e, shape='%s[%s]', sub=(b, i))
         if isinstance(e, ast.BinOp) and isinstance(e.op, (ast.Add, ast.Sub)):
             l = self.term(e.left)
             r = self.term(e.right)
@@ -98,11 +102,13 @@ class TermBuilder(object):
                 except Exception:
                     pass
             return Term('(%s %s %s)' % (l.key, '+' if isinstance(e.op, ast.Add) else '-', r.key),
-                        l.deps | r.deps, l.volatile or r.volatile, node=e)
+                        l.deps | r.deps, l.volatile or r.volatile, node=e,
+                        shape='(%s ' + ('+' if isinstance(e.op, ast.Add) else '-') + ' %s)', sub=(l, r))
         if isinstance(e, ast.BinOp):
             l = self.term(e.left)
             r = self.term(e.right)
-            return Term('(%s %s %s)' % (l.key, type(e.op).__name__, r.key), l.deps | r.deps, l.volatile or r.volatile, node=e)
+            return Term('(%s %s %s)' % (l.key, type(e.op).__name__, r.key), l.deps | r.deps, l.volatile or r.volatile, node=e,
+                        shape='(%s ' + type(e.op).__name__ + ' %s)', sub=(l, r))
         if isinstance(e, ast.UnaryOp) and isinstance(e.op, ast.USub):
             o = self.term(e.operand)
             if o.const is not None and isinstance(o.const[0], (int, float)):
@@ -118,7 +124,7 @@ class TermBuilder(object):
                 deps |= t.deps
                 vol = vol or t.volatile
             br = {'Tuple': '(%s)', 'List': '[%s]', 'Set': '{%s}'}[type(e).__name__]
-            return Term(br % ', '.join(t.key for t in ts), deps, vol, node=e)
+            return Term(br % ', '.join(t.key for t in ts), deps, vol, node=e, shape=br % ', '.join('%s' for t in ts), sub=ts)
         # anything else: opaque, depends on every name inside
         deps = set()
         vol = False
@@ -144,11 +150,13 @@ class TermBuilder(object):
             deps |= t.deps
             vol = vol or t.volatile
         argk = ', '.join(t.key for t in e.args and [self.term(a) for a in e.args] or [])
+        argshape = ', '.join('%s' for a in e.args)
         if e.keywords:
             argk += (', ' if argk else '') + ', '.join('%s=%s' % (k.arg, self.term(k.value).key) for k in e.keywords)
+            argshape += (', ' if argshape else '') + ', '.join('%s=%%s' % k.arg for k in e.keywords)
         f = e.func
         if isinstance(f, ast.Name) and f.id in PURE_BUILTINS and f.id not in self.func.params:
-            return Term('%s(%s)' % (f.id, argk), deps, vol, node=e)
+            return Term('%s(%s)' % (f.id, argk), deps, vol, node=e, shape='%s(%s)' % (f.id, argshape), sub=args)
         r = P.resolve_call(self.func, e)
         if r.kind == 'method' and len(r.targets) == 1 and P.is_pure_getter(r.targets[0]) and not e.args and not e.keywords \
                 and len(r.targets[0].params) == 1:
@@ -156,19 +164,20 @@ class TermBuilder(object):
             t0 = r.targets[0]
             ret = [n for n in ast.walk(t0.node) if isinstance(n, ast.Return)][0].value
             sub = TermBuilder(P, t0).term(ret)
-            return Term(sub.key, sub.deps, sub.volatile, sub.const, sub.base, sub.off, node=e)
+            return Term(sub.key, sub.deps, sub.volatile, sub.const, sub.base, sub.off, node=e, shape=sub.shape, sub=sub.sub)
         if r.kind == 'method' and r.targets and all(P.is_pure_getter(t) for t in r.targets):
             for t in r.targets:
                 deps |= P.reads(t)
-            return Term('self.%s(%s)' % (f.attr, argk), deps, vol, node=e)
+            return Term('self.%s(%s)' % (f.attr, argk), deps, vol, node=e, shape='self.%s(%s)' % (f.attr, argshape), sub=args)
         if isinstance(f, ast.Attribute) and f.attr in PURE_METHODS:
             b = self.term(f.value)
-            return Term('%s.%s(%s)' % (b.key, f.attr, argk), deps | b.deps, vol or b.volatile, node=e)
+            return Term('%s.%s(%s)' % (b.key, f.attr, argk), deps | b.deps, vol or b.volatile, node=e,
+                        shape='%%s.%s(%s)' % (f.attr, argshape), sub=[b] + args)
         if r.kind == 'method' and r.targets and all(not P.writes(t) for t in r.targets):
             # side-effect free helper (not a single return): stable as long as what it reads is
             for t in r.targets:
                 deps |= P.reads(t)
-            return Term('self.%s(%s)' % (f.attr, argk), deps, vol, node=e)
+            return Term('self.%s(%s)' % (f.attr, argk), deps, vol, node=e, shape='self.%s(%s)' % (f.attr, argshape), sub=args)
         return Term(unparse(e), deps, True, node=e)
 
     # ------------------------------------------------------------ atoms
@@ -466,24 +475,42 @@ class Explorer(object):
             self._edge_lit[k] = self.tb.literal(node.ast, pol)
         return self._edge_lit[k]
 
-    def run(self, start=None, init=frozenset(), avoid=(), follow_exc=True, max_states=150000, relevant=None):
-        """explore from `start` (node id; default function entry).  `avoid`: node ids not entered."""
+    def run(self, start=None, init=frozenset(), avoid=(), follow_exc=True, max_states=150000, relevant=None,
+            track=None, stop=()):
+        """explore from `start` (node id; default function entry).  `avoid`: node ids not entered.
+        `stop`: node ids that are recorded when reached but not expanded.
+        `track`: optional fn(node) -> iterable of event names; every state then carries a sorted tuple of
+        (event, count) pairs (counts capped at 2), available through Result.cstates."""
         cfg = self.cfg
         start = cfg.entry.id if start is None else start
         res = Result(self, start)
+        res.cstates = {}
         avoid = set(avoid)
+        stop = set(stop)
         init = frozenset(init)
-        work = [(start, init)]
+        work = [(start, init, ())]
         res.states.setdefault(start, set()).add(init)
+        res.cstates.setdefault(start, set()).add((init, ()))
         count = 0
         while work:
-            nid, fs = work.pop()
+            nid, fs, cnt = work.pop()
             count += 1
             if count > max_states:
                 raise AnalysisError('%s: state budget exceeded during path-sensitive exploration' % self.func.qualname)
+            if nid in stop and nid != start:
+                continue
             node = cfg.nodes[nid]
             written, gens = self.eff.of(node)
             after = kill(fs, written)
+            ncnt = cnt
+            ncnt_exc = cnt
+            if track is not None:
+                evs = list(track(node))
+                if evs:
+                    d = dict(cnt)
+                    for e in evs:
+                        d[e] = min(2, d.get(e, 0) + 1)
+                    ncnt = tuple(sorted(d.items()))
             for dst, label in node.succ:
                 if dst in avoid:
                     continue
@@ -507,12 +534,15 @@ class Explorer(object):
                                 nf = frozenset(cand)
                 if relevant is not None:
                     nf = frozenset(l for l in nf if relevant(l))
-                st = res.states.setdefault(dst, set())
-                if nf in st:
+                c2 = ncnt_exc if is_exc else ncnt
+                cst = res.cstates.setdefault(dst, set())
+                if (nf, c2) in cst:
                     continue
-                st.add(nf)
-                res.parent[(dst, nf)] = (nid, fs, label)
-                work.append((dst, nf))
+                cst.add((nf, c2))
+                res.states.setdefault(dst, set()).add(nf)
+                if (dst, nf) not in res.parent:
+                    res.parent[(dst, nf)] = (nid, fs, label)
+                work.append((dst, nf, c2))
         res.n_states = count
         return res
 
@@ -521,12 +551,13 @@ def _sat_relevant(lits, new):
     """satisfiability restricted to the literals connected (through shared terms) to `new`"""
     def keys(l):
         ks = set()
-        for t in oracle.lit_terms(l):
+        todo = list(oracle.lit_terms(l))
+        while todo:
+            t = todo.pop()
             ks.add(t.key)
             if t.base is not None:
-                ks.add(t.base.key)
-            if t.key.startswith('len(') and t.key.endswith(')'):
-                ks.add(t.key[4:-1])
+                todo.append(t.base)
+            todo.extend(t.sub)
         if l[0] == 'opaque':
             ks.add('\0op:' + l[1])
         return ks
